@@ -127,7 +127,7 @@ int main(void) {
       if (st.repr[0] != '$') { final = st.repr; break; }
       susp++;
       if (calls >= 200000) { final = "calls-cap"; break; }
-      if (strcmp(st.repr, "$short write") == 0) {
+      if (st.repr == wuffs_base__suspension__short_write) {
         if (dst.meta.wi == dst.data.len) {
           if (nout + dst.meta.wi > sizeof(out)) { final = "out-cap"; break; }
           memcpy(out + nout, dbuf, dst.meta.wi); nout += dst.meta.wi;
@@ -139,7 +139,7 @@ int main(void) {
         }
         continue;
       }
-      if (strcmp(st.repr, "$short read") == 0) {
+      if (st.repr == wuffs_base__suspension__short_read) {
         if (delivered < total) {
           chunk = (si < nsizes[0]) ? (size_t)sizes[0][si++] : (total - delivered);
           if (chunk > total - delivered) chunk = total - delivered;
@@ -154,7 +154,13 @@ int main(void) {
     free(dbuf); free(pending);
 
     printf("st=");
-    for (const char* p = final; *p; p++) putchar(*p == ' ' ? '_' : *p);
+    {
+      // "$base: short read" -> "$short_read", "#pkg: e1" -> "#e1"
+      const char* colon = strstr(final, ": ");
+      const char* p = final;
+      if (colon && (final[0] == '$' || final[0] == '#' || final[0] == '@')) { putchar(final[0]); p = colon + 2; }
+      for (; *p; p++) putchar(*p == ' ' ? '_' : *p);
+    }
     printf(" out=");
     if (nout == 0) putchar('-');
     for (size_t i = 0; i < nout; i++) printf("%02x", out[i]);
